@@ -15,7 +15,7 @@ use super::background::start_background_workers;
 use super::reader::Reader;
 use super::topic_clean::{CleanMarkerStore, TopicCleanTracker};
 use super::writer::Writer;
-use rkyv::Deserialize;
+
 
 #[derive(Clone, Copy, Debug)]
 pub enum ReadConsistency {
@@ -345,8 +345,7 @@ impl Walrus {
                 // read from our file; alignment is ensured by `AlignedVec`.
                 // SAFETY: `aligned` is built from bounded bytes inside the block,
                 // copied into `AlignedVec` ensuring alignment for rkyv.
-                let archived = unsafe { rkyv::archived_root::<Metadata>(&aligned[..]) };
-                let md: Metadata = match archived.deserialize(&mut rkyv::Infallible) {
+                let md: Metadata = match crate::wal::block::checked_metadata(&aligned[..]).ok_or(()) {
                     Ok(m) => m,
                     Err(_) => {
                         break;
